@@ -138,3 +138,25 @@ def build4(m):
                                           PAIRS_OK % ('next_children', 'current_depth', 'next_children', 'next_children', 'next_children'),
                                           PAIRS_OK % ('new_children', 'current_depth + 1', 'new_children', 'new_children', 'new_children')]),
                    }, prop=['C12']))
+
+
+def build5(m):
+    """Every block render method hands ITS max_line_length argument (the budget left after the
+    container prefixes) on to the line builders -- never the renderer-wide setting (C10)."""
+    MR = TRef('MarkdownRendererObj')
+    TOKL = TList(TRef('Token'))
+    BT = TRef('BlockTok')
+    m.classes['BlockTok'] = {'children': TOKL, 'underline': STR}
+    m.methods[('MarkdownRendererObj', 'span_to_lines')] = MOD + ':MarkdownRenderer.span_to_lines#lines'
+    m.add(Contract(MOD + ':MarkdownRenderer.span_to_lines#lines', [('self', MR), ('tokens', TOKL), ('max_line_length', TOpt(INT))],
+                   returns=TList(STR), trusted=True, pure=True,
+                   note='the lines produced for a run of span tokens (generator consumed to exhaustion, A11)'))
+    SAME = ('same(arg_max_line_length, old(max_line_length))', 'C10')
+    for name, callee in [('render_paragraph', 'span_to_lines'), ('render_setext_heading', 'span_to_lines'),
+                         ('render_link_reference_definition_block', 'span_to_lines'),
+                         ('render_list', 'blocks_to_lines'), ('render_document', 'blocks_to_lines')]:
+        m.add(Contract(MOD + ':MarkdownRenderer.%s#budget' % name, [('self', MR), ('token', BT), ('max_line_length', TOpt(INT))],
+                       returns=None,
+                       call_asserts={MOD + ':MarkdownRenderer.%s#lines' % callee: [SAME]},
+                       loops={0: Loop(invariant=[])},
+                       prop=['C10']))
